@@ -23,7 +23,7 @@ func c10Cfg() *DeclCfg {
 
 func c10Run(c *Ctx) {
 	d := GenDecl(c.Sub("d"), c10Cfg())
-	if c.K%13 == 4 {
+	if inHistTail(c, 40000, 1500000) {
 		// help (or a man page) written before the parse must not disturb the binding order
 		hc := c10Cfg()
 		hc.PDesc = 50
@@ -202,11 +202,11 @@ func init() {
 		Cases: func(tier string) int64 {
 			switch tier {
 			case "thorough":
-				return 1500000
+				return 1500000 + 125000 // + history cases
 			case "race":
 				return 0
 			}
-			return 40000
+			return 40000 + 3333 // + history cases
 		},
 		Run:           c10Run,
 		MinNontrivial: 300,
